@@ -309,6 +309,16 @@ func reportPubs(c *run.Ctx, ep *Episode, a *pubAnalysis, all []*sim.Pub, props .
 			c.Violate("deadline-discipline", o, nil)
 		}
 	}
+	if want["C15"] {
+		ep.W.Mu.Lock()
+		ep.W.Store.CheckPristine()
+		mod := append([]string(nil), ep.W.Store.Modified...)
+		ep.W.Mu.Unlock()
+		for _, m := range mod {
+			c.Violate("stored-record-modified-in-place", m, nil)
+			break
+		}
+	}
 	accepted, closed := 0, 0
 	for _, p := range all {
 		if p.Accepted() {
